@@ -86,10 +86,11 @@ def none():
 
 
 class Frame:
-    __slots__ = ("fn", "bb", "cells", "ret_loc", "ret_bb", "visits")
+    __slots__ = ("fn", "bb", "cells", "ret_loc", "ret_bb", "visits", "ctx_self")
 
     def __init__(self, fn):
         self.fn = fn
+        self.ctx_self = None
         self.bb = 0
         self.cells = {}
         self.ret_loc = None
@@ -157,6 +158,9 @@ class Engine:
         if self._index is None:
             self._index = {}
             for fn in self.facts.fns(unit=self.unit):
+                self._index.setdefault(fn.id, fn)
+            # dependencies analysed in another unit (e.g. ark_ff when running a curve crate's code)
+            for fn in self.facts.fns():
                 self._index.setdefault(fn.id, fn)
         return self._index.get(f.get("res") or "") or self._index.get(f.get("path") or "")
 
@@ -254,6 +258,13 @@ class Engine:
         name = None
         if "def" in k and "promoted" not in k:
             name = k["def"].rsplit("::", 1)[-1]
+            if self.const_value:
+                try:
+                    v = self.const_value(k["def"], k, self.type_context())
+                except TypeError:
+                    v = self.const_value(k["def"], k)
+                if v is not None:
+                    return copy.deepcopy(v)
         elif "param" in k:
             name = k["param"]
         elif k.get("pdefs"):
@@ -322,8 +333,16 @@ class Engine:
                 done.append(out)
         return done
 
+    def type_context(self):
+        """self-type strings of the calls that led to the current frame (innermost first)"""
+        st = getattr(self, "cur_state", None)
+        if st is None:
+            return []
+        return [f.ctx_self or "" for f in reversed(st.frames)]
+
     def run_path(self, st, work):
         while True:
+            self.cur_state = st
             fr = st.frames[-1]
             fn = fr.fn
             bb = fr.bb
@@ -503,12 +522,36 @@ class Engine:
                 if len(m) == 1 and m[0][1] == 1 and abs(coef) == 1:
                     self.substitute(st, m[0][0], Poly())
         if c.kind == "eq" and not c.neg and isinstance(c.a, Q) and isinstance(c.b, Q):
-            a, b = c.a, c.b
-            if b.is_poly() and a.is_poly() and len(b.n.t) == 1:
-                (m, coef), = b.n.t.items()
-                if len(m) == 1 and m[0][1] == 1 and coef == 1 and m[0][0] not in a.n.vars():
-                    self.substitute(st, m[0][0], a.n)
+            for a, b in ((c.a, c.b), (c.b, c.a)):
+                if b.is_poly() and a.is_poly() and len(b.n.t) == 1:
+                    (m, coef), = b.n.t.items()
+                    if len(m) == 1 and m[0][1] == 1 and coef == 1 and m[0][0] not in a.n.vars():
+                        self.substitute(st, m[0][0], a.n)
+                        break
         return True
+
+    def call_closure(self, st, clo, argvals):
+        """run a closure value on arguments; only straight-line closures (single decided path) are supported"""
+        if not (isinstance(clo, Obj) and clo.adt == "closure"):
+            return TOP
+        if self._index is None:
+            self.lookup({})
+        fn = self._index.get(clo.variant)
+        if fn is None or len(st.frames) >= self.max_depth + 2:
+            return TOP
+        env = clo
+        if fn.local_ty(1).startswith("&"):
+            env = Ref(Cell(clo))
+        sub = State()
+        sub.assume = st.assume
+        sub.subst = st.subst
+        sub.flags = st.flags
+        paths = self.run(fn, [env] + list(argvals), st=sub)
+        live = [p for p in paths]
+        if len(live) != 1:
+            st.flags.add("closure-forks")
+            return TOP
+        return live[0].ret
 
     def substitute(self, st, var, p):
         st.subst[var] = p
@@ -558,6 +601,7 @@ class Engine:
                     nf.cell(i + 1).v = a
                 nf.ret_loc = dest
                 nf.ret_bb = t.get("t")
+                nf.ctx_self = f.get("self") or ((f.get("targs") or [None])[0])
                 if nf.ret_bb is None:
                     return "diverge"
                 st.frames.append(nf)
@@ -645,9 +689,15 @@ def ring_models(extra=None):
     if extra:
         extra(m)
 
+    def structured(v):
+        return isinstance(v, Obj) and (v.fields or v.adt is not None) and not (v.name is not None and not v.fields)
+
     def binop(fun):
         def h(ex, st, fr, t, args):
-            a, b = q_of(ex.deref(args[0])), q_of(ex.deref(args[1]))
+            da, db = ex.deref(args[0]), ex.deref(args[1])
+            if structured(da) or structured(db):
+                return NotImplemented      # aggregate operands: evaluate the real implementation
+            a, b = q_of(da), q_of(db)
             if a is None or b is None:
                 return TOP
             return fun(a, b)
@@ -655,7 +705,10 @@ def ring_models(extra=None):
 
     def assignop(fun):
         def h(ex, st, fr, t, args):
-            a, b = q_of(ex.deref(args[0])), q_of(ex.deref(args[1]))
+            da, db = ex.deref(args[0]), ex.deref(args[1])
+            if structured(da) or structured(db):
+                return NotImplemented
+            a, b = q_of(da), q_of(db)
             ex.write_ref(args[0], fun(a, b) if a is not None and b is not None else TOP)
             return Obj(adt="()")
         return h
@@ -669,7 +722,10 @@ def ring_models(extra=None):
     m.on(by("core::ops::arith::DivAssign", "div_assign"), assignop(lambda a, b: a / b))
 
     def neg(ex, st, fr, t, args):
-        a = q_of(ex.deref(args[0]))
+        d = ex.deref(args[0])
+        if structured(d):
+            return NotImplemented
+        a = q_of(d)
         return -a if a is not None else TOP
     m.on(by("core::ops::arith::Neg", "neg"), neg)
 
@@ -682,13 +738,19 @@ def ring_models(extra=None):
 
     def unary_ret(fun):
         def h(ex, st, fr, t, args):
-            a = q_of(ex.deref(args[0]))
+            d = ex.deref(args[0])
+            if structured(d):
+                return NotImplemented
+            a = q_of(d)
             return fun(a) if a is not None else TOP
         return h
 
     def unary_inplace(fun):
         def h(ex, st, fr, t, args):
-            a = q_of(ex.deref(args[0]))
+            d = ex.deref(args[0])
+            if structured(d):
+                return NotImplemented
+            a = q_of(d)
             ex.write_ref(args[0], fun(a) if a is not None else TOP)
             return args[0]
         return h
@@ -703,7 +765,10 @@ def ring_models(extra=None):
     m.on(by(None, "one"), lambda ex, st, fr, t, a: Q.const(1) if not a and t["f"].get("trait", "").endswith("One") else NotImplemented)
 
     def is_zero(ex, st, fr, t, args):
-        a = q_of(ex.deref(args[0]))
+        d = ex.deref(args[0])
+        if structured(d):
+            return NotImplemented
+        a = q_of(d)
         if a is None:
             return TOP
         if a.is_zero():
@@ -757,8 +822,23 @@ def ring_models(extra=None):
         v = args[0]
         if isinstance(v, Obj) and v.variant == "Some":
             return v.fields.get(0, TOP)
+        if isinstance(v, Obj) and v.variant == "None":
+            st.flags.add("panic")     # unwrap of None: the path ends in a panic, not in a result
+            return TOP
         return TOP
     m.on(by(None, ("unwrap", "expect", "unwrap_unchecked"), "core::option::Option"), unwrap)
+
+    def opt_map(ex, st, fr, t, args):
+        v = args[0]
+        if isinstance(v, Obj) and v.variant == "None":
+            return none()
+        if isinstance(v, Obj) and v.variant == "Some":
+            r = ex.call_closure(st, args[1], [v.fields.get(0, TOP)])
+            if t["f"].get("name") == "map":
+                return some(r) if r is not TOP else TOP
+            return r
+        return TOP
+    m.on(by(None, ("map", "and_then"), "core::option::Option"), opt_map)
 
     def from_int(ex, st, fr, t, args):
         if len(args) == 1 and isinstance(args[0], int) and not isinstance(args[0], bool):
